@@ -7,7 +7,7 @@
    same success, same volume record field by field, the same kind of error, Panic for Panic. *)
 From Coq Require Import List NArith PeanoNat Lia Bool FMapPositive.
 From SdFs Require Import FsTypes FsBase FsFat FsMgr FsLemmas PrBase PrFat PrHandles PrRw PrGlobalMount.
-From SdMount Require MountModel MountSpec MountProofs C15.
+From SdMount Require MountModel MountSpec MountProofs.
 Import ListNotations.
 Local Open Scope N_scope.
 
@@ -499,7 +499,7 @@ Theorem C15_fs_mount_total d off mv md mf idx :
   r <> Panic /\ r <> OutOfFuel.
 Proof.
   intros HO Hmv.
-  pose proof (C15.C15_total (dev_of_disk d) idx (dev_of_disk_ok d HO)) as HT.
+  pose proof (MountProofs.mount_total (dev_of_disk d) idx (dev_of_disk_ok d HO)) as HT.
   destruct (mount_bridge d off mv md mf idx HO Hmv) as (E & _).
   cbn [step]. unfold lift, bind.
   destruct (open_raw_volume idx (init_state d off mv md mf [])) as [o s'].
@@ -628,7 +628,7 @@ Proof.
   destruct (mount_bridge_rel (MS.format g) (disk_of_format g) (MS.g_slot g) s0
               (format_rel g) (format_disk_ok g) eq_refl F1 Hmv F4 F5 F6)
     as (s' & E & Hd & _ & _ & Hm).
-  rewrite (C15.C15_valid g HV HL) in E, Hm. cbn [conv] in E.
+  rewrite (MountProofs.mount_format g HV HL) in E, Hm. cbn [conv] in E.
   cbn [step]. unfold lift. rewrite (bind_ok _ _ _ _ _ E). cbn [ret fst snd].
   split; [reflexivity|]. destruct Hm as (Hvols & _). split; [exact Hvols|exact Hd].
 Qed.
